@@ -31,6 +31,8 @@ static std::string classify(const std::string& m){
   if(m.find("contain lowercase characters")!=std::string::npos) return "E_lower";
   if(m.find("Value is too long")!=std::string::npos) return "E_toolong";
   if(m.find("must not be longer than")!=std::string::npos) return "E_longkey";
+  if(m.find("contain non-printable characters (key was")!=std::string::npos) return "E_keychar";
+  if(m.find("Value contains non-printable characters")!=std::string::npos) return "E_valchar";
   if(m.find("must not begin or end with a blank")!=std::string::npos) return "E_blank";
   if(m.find("Failed to write aux entry")!=std::string::npos) return "E_writeaux";
   std::string r="E_other:"; for(char c: m) r.push_back((c==' '||c=='\n')?'_':c); return r;
